@@ -118,29 +118,34 @@ Definition cmp_Z (c : cmp) (a b : Z) : bool :=
   | CLe => Z.leb a b | CLt => Z.ltb a b | CGe => Z.leb b a | CGt => Z.ltb b a
   | CEq => Z.eqb a b | CNe => negb (Z.eqb a b)
   end.
-Fixpoint all_zero (s : string) : bool := match s with String c r => Ascii.eqb c "0" && all_zero r | EmptyString => true end.
-(* sign of a number, enough to compare it with 0 *)
-Definition sign_of (v : cval) : option Z :=
+(* a number as numerator / positive power of ten *)
+Definition num_of (v : cval) : option (Z * Z) :=
   match v with
-  | VBool b => Some (if b then 1 else 0)%Z
-  | VInt z => Some (Z.sgn z)
-  | VFloat neg ip fp => Some (if all_zero ip && all_zero fp then 0 else if neg then (-1) else 1)%Z
+  | VBool b => Some ((if b then 1 else 0), 1)%Z
+  | VInt z => Some (z, 1%Z)
+  | VFloat neg ip fp => let n := digits_val (ip ++ fp) 0 in
+                        Some ((if neg then (- n) else n)%Z, (10 ^ Z.of_nat (String.length fp))%Z)
   | VStr _ => None
   end.
+(* value <c> bound *)
+Definition cmp_bound (c : cmp) (v : cval) (b : Z) : option bool :=
+  match num_of v with Some (n, sc) => Some (cmp_Z c n (b * sc)) | None => None end.
 Definition is_int (v : cval) : bool := match v with VBool _ | VInt _ => true | _ => false end.
 
 Definition has_key (k : string) (c : cfg) : bool := match lookup k c with Some _ => true | None => false end.
 Definition check_member (k : string) (allowed : list string) (c : cfg) : bool :=
   match lookup k c with None => true | Some (VStr s) => smem s allowed | Some _ => false end.
-Definition check_max_retries (c : cfg) : bool :=
-  match lookup "max_retries" c with
+(* `not isinstance(v, int) or v <bad> bound` -> error *)
+Definition check_int_guard (k : string) (bad : cmp) (bound : Z) (c : cfg) : bool :=
+  match lookup k c with
   | None => true
-  | Some v => is_int v && match sign_of v with Some s => negb (cmp_Z max_retries_bad_cmp s 0) | None => false end
+  | Some v => is_int v && match cmp_bound bad v bound with Some r => negb r | None => false end
   end.
-Definition check_timeout (c : cfg) : bool :=
-  match lookup "timeout" c with
+(* `not isinstance(v, (int, float)) or v <bad> bound` -> error *)
+Definition check_num_guard (k : string) (bad : cmp) (bound : Z) (c : cfg) : bool :=
+  match lookup k c with
   | None => true
-  | Some v => match sign_of v with Some s => negb (cmp_Z timeout_bad_cmp s 0) | None => false end
+  | Some v => match cmp_bound bad v bound with Some r => negb r | None => false end
   end.
 Definition check_app_name (c : cfg) : bool :=
   match lookup "app_name" c with
@@ -148,9 +153,21 @@ Definition check_app_name (c : cfg) : bool :=
   | Some (VStr s) => nonempty (rstrip s)
   | Some _ => false
   end.
+(* validate_config, parametric in the literals of its guards *)
+Definition valid_with (req levels formats : list string) (rcmp : cmp) (rb : Z) (tcmp : cmp) (tb : Z) (c : cfg) : bool :=
+  forallb (fun k => has_key k c) req && check_member "log_level" levels c
+  && check_member "output_format" formats c && check_int_guard "max_retries" rcmp rb c
+  && check_num_guard "timeout" tcmp tb c && check_app_name c.
+(* ... as found in the source *)
 Definition valid (c : cfg) : bool :=
-  forallb (fun k => has_key k c) required_keys && check_member "log_level" valid_log_levels c
-  && check_member "output_format" valid_formats c && check_max_retries c && check_timeout c && check_app_name c.
+  valid_with required_keys valid_log_levels valid_formats max_retries_bad_cmp max_retries_bound timeout_bad_cmp timeout_bound c.
+(* ... as documented (error messages of src/config.py, docs/cli-reference.md): app_name and log_level are required;
+   log_level is a logging level name; output_format is text, json or yaml; max_retries is a NON-NEGATIVE INTEGER
+   (bad iff < 0); timeout is a POSITIVE NUMBER (bad iff <= 0); app_name is a non-empty string.
+   The specification uses this one; it does not follow Gen. *)
+Definition valid_doc (c : cfg) : bool :=
+  valid_with ["app_name"; "log_level"] ["DEBUG"; "INFO"; "WARNING"; "ERROR"; "CRITICAL"] ["text"; "json"; "yaml"]
+             CLt 0%Z CLe 0%Z c.
 
 (* ------------------------------------------------------------------ load / save *)
 (* _normalize_config_keys: first spelling keeps the position, last value wins *)
@@ -212,7 +229,7 @@ Definition opt_str_eqb (a b : option string) : bool :=
 
 Definition stored_ok (k : string) (v : cval) (f : option cfg) : bool :=
   match f with
-  | Some c => valid (merge_cfg default_config (normalize c)) &&
+  | Some c => valid_doc (merge_cfg default_config (normalize c)) &&
               match lookup (norm k) (normalize c) with Some w => cval_eqb w v | None => false end
   | None => false
   end.
